@@ -134,6 +134,7 @@ func genCase(t *rapid.T) Case {
 	c.KeyKind = rapid.SampledFrom([]string{"p256", "p256", "p256", "rsa2048", "rsa2048", "rsa3072", "p384", "p521", "rsa1024"}).Draw(t, "keykind")
 	c.KeyIdx = rapid.IntRange(0, 7).Draw(t, "keyidx")
 	genKeyOptions(t, &c.KeyPEM, &c.NoDER, &c.DecoyIdx, &c.Siblings)
+	c.KlogV = rapid.SampledFrom([]int{0, 0, 1, 2, 5}).Draw(t, "klogv")
 	c.Timestamp = genTimestamp(t, "ts")
 	c.TreeSize = rapid.SampledFrom([]uint64{0, 1, 2, 7, 1 << 20, 1<<32 + 3, 1<<63 - 1, 1<<64 - 1}).Draw(t, "size")
 	c.Seed = rapid.Uint32().Draw(t, "seed")
@@ -159,6 +160,11 @@ func genCase(t *rapid.T) Case {
 		c.Temporal = rapid.IntRange(0, 3).Draw(t, "temporal") == 0
 		c.DeadlineS = rapid.IntRange(1, 300).Draw(t, "deadline")
 		c.EmptyChain = rapid.IntRange(0, 39).Draw(t, "emptychain") == 0
+		if rapid.IntRange(0, 5).Draw(t, "chainedit") == 0 {
+			// a caller whose chain elements are not one certificate each
+			c.ChainEdits = append(c.ChainEdits, ChainEdit{Kind: rapid.SampledFrom([]string{"concat", "concat", "merge", "merge", "split", "empty-insert", "empty-replace"}).Draw(t, "cekind"),
+				At: rapid.IntRange(0, 2).Draw(t, "ceat"), N: rapid.IntRange(0, 2000).Draw(t, "cen")})
+		}
 	case "GetRawEntries", "GetEntries":
 		maxEntries := 3
 		if harness.Thorough() {
@@ -492,8 +498,10 @@ func jsonState(body []byte, into any) string {
 func checkClient(t *testing.T, c Case) (v harness.Verdict) {
 	ct.AllowVerificationWithNonCompliantKeys = c.KeyKind == "p384" || c.KeyKind == "p521" || c.KeyKind == "rsa1024"
 	defer func() { ct.AllowVerificationWithNonCompliantKeys = false }()
+	harness.SetKlogVerbosity(c.KlogV)
+	defer harness.SetKlogVerbosity(0)
 	s := newScene(c)
-	v.Class("key:" + c.KeyKind)
+	v.Class("key:"+c.KeyKind, fmt.Sprintf("klog-v:%d", c.KlogV))
 	rt := &scriptRT{}
 	nm := 0
 	for i, r := range c.Script {
@@ -519,6 +527,10 @@ func checkClient(t *testing.T, c Case) (v harness.Verdict) {
 	}
 	if c.Rekey {
 		v.Class("rekeyed-issuer")
+	}
+	for _, e := range c.ChainEdits {
+		v.Class("chain-edit:" + e.Kind)
+		nm++
 	}
 	if c.EmptyChain {
 		v.Class("empty-chain")
@@ -851,7 +863,12 @@ func (s *scene) judgeSCT(v *harness.Verdict, sct *ct.SignedCertificateTimestamp,
 		v.Failf("sct-unverified", "extensions longer than 65535 bytes")
 		return
 	}
-	in, ierr := rfc6962.SCTSignatureInput(0, sct.Timestamp, s.entryFor(c.Method, s.chain), sct.Extensions)
+	entry, why := s.expectedEntry()
+	if why != "" {
+		v.Failf("sct-unverified", "%s returned an SCT although %s: no entry exists that it could verify for", c.Method, why)
+		return
+	}
+	in, ierr := rfc6962.SCTSignatureInput(0, sct.Timestamp, entry, sct.Extensions)
 	if ierr != nil {
 		panic(ierr)
 	}
@@ -868,6 +885,6 @@ func (s *scene) judgeSCT(v *harness.Verdict, sct *ct.SignedCertificateTimestamp,
 // Client is the client half of C12.
 var Client = harness.Define(harness.Opts{
 	Name:  "client",
-	Rule:  "one call of one LogClient method (GetSTH, AddChain, AddPreChain - a quarter of the submissions and get-roots through a one-shard TemporalLogClient -, GetSTHConsistency, GetProofByHash, GetRawEntries, GetEntries, GetEntryAndProof, GetAcceptedRoots) by a client given its key as PublicKeyDER, as PEM PublicKey, as both, or as DER under the PEM of a decoy key (DER has precedence), with 0-2 other clients built before it in the same process from the same two keys, holding a P-256 / RSA-2048 / RSA-3072 log key (or, with AllowVerificationWithNonCompliantKeys, P-384 / P-521 / RSA-1024), against a scripted round tripper serving 1-3 answers (the last repeats); each answer is the truthful one (signed with the pool key over internal/rfc6962 inputs; chains and entries from internal/world) under 0-3 mutations (status 0..1000, body read error, network error, odd headers, Content-Length 0 / short / long / 2^31 / 2^48 / 2^50 / 2^62 / 2^63-1 / invalid modelled as net/http delivers it, redirects, body replaced / truncated / extended, JSON fields dropped / wrongly typed / duplicated / re-cased / with broken base64, root hash or id of 0/31/33 bytes, foreign / decoy-key / flipped / empty signature, DigitallySigned truncated or followed by bytes, algorithm octets relabelled, other hash, timestamp / size / root / extensions changed after signing, signed version or signature type changed, SCT for another certificate / the other entry type, foreign or zero log id, sct_version != 0, undecodable entries, get-entries replies of 60-263 entries). Runs under virtual time; submissions carry a virtual deadline. Non-trivial: >= 1 mutation",
+	Rule:  "one call of one LogClient method (GetSTH, AddChain, AddPreChain - a quarter of the submissions and get-roots through a one-shard TemporalLogClient -, GetSTHConsistency, GetProofByHash, GetRawEntries, GetEntries, GetEntryAndProof, GetAcceptedRoots) by a client given its key as PublicKeyDER, as PEM PublicKey, as both, or as DER under the PEM of a decoy key (DER has precedence), with 0-2 other clients built before it in the same process from the same two keys, holding a P-256 / RSA-2048 / RSA-3072 log key (or, with AllowVerificationWithNonCompliantKeys, P-384 / P-521 / RSA-1024), against a scripted round tripper serving 1-3 answers (the last repeats); each answer is the truthful one (signed with the pool key over internal/rfc6962 inputs; chains and entries from internal/world) under 0-3 mutations (status 0..1000, body read error, network error, odd headers, Content-Length 0 / short / long / 2^31 / 2^48 / 2^50 / 2^62 / 2^63-1 / invalid modelled as net/http delivers it, redirects, body replaced / truncated / extended, JSON fields dropped / wrongly typed / duplicated / re-cased / with broken base64, root hash or id of 0/31/33 bytes, foreign / decoy-key / flipped / empty signature, DigitallySigned truncated or followed by bytes, algorithm octets relabelled, other hash, timestamp / size / root / extensions changed after signing, signed version or signature type changed, SCT for another certificate / the other entry type, foreign or zero log id, sct_version != 0, undecodable entries, error bodies of 513-1700 octets, get-entries replies of 60-263 entries). A sixth of the submissions hand in a chain whose elements are not one certificate each (a second certificate inside an element, two elements merged, one split, empty elements); the klog -v level is 0, 1, 2 or 5. Runs under virtual time; submissions carry a virtual deadline. Non-trivial: >= 1 mutation",
 	Quick: 8000, Thorough: 20000,
 }, genCase, checkClient)
